@@ -54,7 +54,7 @@ type Op struct {
 func (o Op) String() string {
 	s := o.K
 	switch o.K {
-	case "add", "trigger", "get", "barwait":
+	case "add", "trigger", "get", "barwait", "traverse", "avgadj", "proxyr", "proxyw", "isrun":
 		s += fmt.Sprint(o.B)
 	case "incr", "setcur", "refill", "ewma":
 		s += fmt.Sprintf("%d(%d)", o.B, o.N)
@@ -450,6 +450,30 @@ func (r *runner) do(client int, op Op) {
 			close(r.delay)
 		case "yield":
 			mcrt.Yield()
+		case "traverse":
+			n := 0
+			bar.TraverseDecorators(func(decor.Decorator) { n++ })
+			return fmt.Sprint(n)
+		case "avgadj":
+			bar.DecoratorAverageAdjust(time.Unix(0, 0))
+		case "proxyr":
+			rc := bar.ProxyReader(strings.NewReader("abc"))
+			if rc == nil {
+				return "nil"
+			}
+			b, err := io.ReadAll(rc)
+			rc.Close()
+			return fmt.Sprintf("%q,%v", b, err)
+		case "proxyw":
+			wc := bar.ProxyWriter(io.Discard)
+			if wc == nil {
+				return "nil"
+			}
+			n, err := wc.Write([]byte("ab"))
+			wc.Close()
+			return fmt.Sprintf("%d,%v", n, err)
+		case "isrun":
+			return fmt.Sprint(bar.IsRunning())
 		}
 		return ""
 	})
